@@ -36,6 +36,21 @@ def gen(seed, tier):
             o["offset"] = o.get("offset", 0.0) + 2.5 * si
             so.append(o)
         pl["stack_objectives"] = so
+        if seed % 8 == 0:
+            # evaluation caches (FunctionProblem(use_cache=True)) on every level: a value cached for one level's
+            # objective must never be served to another level; an earlier tree of the same process (same seeds and
+            # box, another objective) must not leak its cache either
+            for st in pl["stacks"]:
+                st["use_cache"] = True
+            import copy as _c
+
+            prev = []
+            for o in so:
+                o2 = _c.deepcopy(o)
+                o2["offset"] = o2.get("offset", 0.0) + 50.0
+                prev.append(o2)
+            pl["preceded_by"] = [{"stack_objectives": prev, "faults": {}}]
+            pl["uses_cache"] = True
     return pl
 
 
@@ -51,6 +66,8 @@ class C02Monitor(Monitor):
         self.pure = self.pures[0]
         if w.plan.get("stack_objectives"):
             w.probe("c02-per-level-objectives")
+        if w.plan.get("uses_cache"):
+            w.probe("c02-evaluation-cache-plans")
         self.maximize = bool(w.plan["maximize"])
         self.recorded = {}  # (id(deme), gen index) -> digest
         self.keep = []  # strong refs
